@@ -11,7 +11,7 @@ import (
 
 // C12: lexical scoping, closures, signatures, partial application, chaining.
 
-var c12Types = []string{"n", "s", "b", "l", "a", "o", "f", "j", "x", "(ns)", "(nsb)", "a<n>", "a<s>", "a<(ns)>", "(sa)", "(ao)"}
+var c12Types = []string{"n", "s", "b", "l", "a", "o", "f", "j", "x", "(ns)", "(nsb)", "a<n>", "a<s>", "a<(ns)>", "(sa)", "(ao)", "a<a<n>>"}
 
 // argument kinds for signature fitting
 var c12ArgKinds = []struct {
@@ -27,6 +27,8 @@ var c12ArgKinds = []struct {
 	{"object", func() jast.Node { return lit(O{"k": 1.0}) }},
 	{"function", func() jast.Node { return &jast.Var{Name: "sum"} }},
 	{"missing", func() jast.Node { return &jast.Name{V: "nothing"} }},
+	{"nested-num-array", func() jast.Node { return lit(A{A{1.0, 2.0}, A{3.0}}) }},
+	{"nested-mixed-array", func() jast.Node { return lit(A{A{1.0, 2.0}, A{3.0, "x"}}) }},
 }
 
 func pow(b, e int) int64 {
@@ -67,7 +69,7 @@ func decodeArgs(i int64, n int) []jast.Node {
 	return args
 }
 
-// exhaustive one-parameter signatures: 16 types x 4 options x arg lists of length 0..2
+// exhaustive one-parameter signatures: 17 types x 4 options x arg lists of length 0..2
 func c12Sig1(i int64) jast.Node {
 	nk := len(c12ArgKinds)
 	per := 1 + int64(nk) + pow(nk, 2)
@@ -653,7 +655,7 @@ func (g *c12Gen) chain() jast.Node {
 func init() {
 	fw.Register(&fw.Prop{
 		ID: "C12", Title: "Lexical scoping, closures, signatures, partial application and chaining",
-		Rule: "cases: (a) exhaustive one-parameter signatures: 16 types (n s b l a o f j x (ns) (nsb) a<n> a<s> a<(ns)> (sa) (ao)) x 4 options (none - ? +) x every argument list of length 0..2 over 9 value kinds, lambda defined and called under a known context and reporting its bindings; " +
+		Rule: "cases: (a) exhaustive one-parameter signatures: 17 types (n s b l a o f j x (ns) (nsb) a<n> a<s> a<(ns)> (sa) (ao) a<a<n>>) x 4 options (none - ? +) x every argument list of length 0..2 over 11 value kinds (incl. arrays of arrays), lambda defined and called under a known context and reporting its bindings; " +
 			"(b) two-parameter signatures (first: type x {none,-}; second: type x {none,?,+}) x argument lists of length 0..2 (quick) / 0..3 (thorough); (b2) two-parameter signatures with an option where the port does not honour it (first n/s/a with ? or +, second n/s with none, - or ?) x argument lists of length 0..3; for (a)-(b2) a second, declarative oracle decides whether the arguments fit the signature (some in-order assignment in which a plain parameter takes one argument, ? one or none, - one or the type-correct context item, + one or more): a call that fits must not fail with an argument error; (c) exhaustive partial applications: arity 1..3 x every non-empty placeholder mask x 0..arity+1 call arguments x 4 callee variants (lambda, built-in, bound variable); " +
 			"(d) PRNG-generated nested blocks with assignment, shadowing by inner blocks and by parameters, lambdas of 0..3 parameters (nested, returned, passed to $map/$filter/$reduce/$sort, recursive through their binding with a bounded counter), calls with missing and surplus arguments; " +
 			"(e) chains of length 1..4 over values, calls, bare functions, partials, transforms and non-functions; (f) context-defaulting built-ins nested in each other's arguments under different path contexts. Oracle: reference model (exact; errors by class incl. ArgTypeError position). non-trivial = every case; distinct by program text",
